@@ -472,24 +472,53 @@ def check_matrix_view(prog: Program, res: Result) -> None:
         res.unrecognised("R-VIEW-AGREE", inst, fi.loc(), "loop over the bonds")
         return
     a1, a2 = (norm(x) for x in loops[0].target.elts)
-    stores = set()
+    # locals of the loop body defined once (row = index[a1] ...)
+    local: dict[str, ast.AST] = {}
+    seen: dict[str, int] = {}
     for st in ast.walk(loops[0]):
-        if isinstance(st, ast.Assign) and norm(st.value) == "1":
-            t = norm(st.targets[0])
-            stores.add(t)
-    want = {f"matrix[{dname}[{a1}]][{dname}[{a2}]]",
-            f"matrix[{dname}[{a2}]][{dname}[{a1}]]"}
-    alt = {f"matrix[{dname}[{a1}], {dname}[{a2}]]",
-           f"matrix[{dname}[{a2}], {dname}[{a1}]]"}
-    if want <= stores or alt <= stores:
+        if isinstance(st, ast.Assign):
+            for t in st.targets:
+                if isinstance(t, ast.Name):
+                    seen[t.id] = seen.get(t.id, 0) + 1
+                    local[t.id] = st.value
+                elif isinstance(t, ast.Tuple) and isinstance(
+                        st.value, ast.Tuple) and len(t.elts) == len(
+                        st.value.elts):
+                    for x, y in zip(t.elts, st.value.elts):
+                        if isinstance(x, ast.Name):
+                            seen[x.id] = seen.get(x.id, 0) + 1
+                            local[x.id] = y
+
+    def idx(e) -> str:
+        if isinstance(e, ast.Name) and seen.get(e.id) == 1:
+            return idx(local[e.id])
+        return norm(e)
+
+    stores = set()
+    raw = []
+    for st in ast.walk(loops[0]):
+        if isinstance(st, ast.Assign) and norm(st.value) in ("1", "True"):
+            for t in st.targets:
+                raw.append(norm(t))
+                if not isinstance(t, ast.Subscript):
+                    continue
+                if isinstance(t.value, ast.Subscript) and norm(
+                        t.value.value) == "matrix":
+                    stores.add((idx(t.value.slice), idx(t.slice)))
+                elif norm(t.value) == "matrix" and isinstance(
+                        t.slice, ast.Tuple) and len(t.slice.elts) == 2:
+                    stores.add((idx(t.slice.elts[0]), idx(t.slice.elts[1])))
+    want = {(f"{dname}[{a1}]", f"{dname}[{a2}]"),
+            (f"{dname}[{a2}]", f"{dname}[{a1}]")}
+    if want <= stores:
         res.ok("R-VIEW-AGREE", inst, fi.loc(loops[0]))
-    elif stores & (want | alt):
-        res.bad("R-VIEW-AGREE", f"connectivity_matrix stores {sorted(stores)}",
-                fi.loc(loops[0]), f"{inst}: only {sorted(stores)} is set; the "
+    elif stores & want:
+        res.bad("R-VIEW-AGREE", f"connectivity_matrix stores {sorted(raw)}",
+                fi.loc(loops[0]), f"{inst}: only {sorted(raw)} is set; the "
                 "matrix is not symmetric", instance=inst)
     else:
         res.unrecognised("R-VIEW-AGREE", inst, fi.loc(loops[0]),
-                         f"stores {sorted(stores)}")
+                         f"stores {sorted(raw)}")
 
 
 def run(prog: Program, res: Result, tier: str) -> None:
